@@ -54,7 +54,9 @@ def inject_attrs(scratch, rel_file, fn_name, attr_lines):
     ins = ''.join(f'{indent}{a}\n' for a in attr_lines)
     open(p, 'w').write(src.text[:ls] + ins + src.text[ls:])
 
-FAIL_IGNORE = re.compile(r'NaN on (addition|subtraction|multiplication|division)|arithmetic overflow on floating-point')
+# IEEE-defined, non-trapping behaviour that CBMC flags by default: NaN results, and the C library model of fmaf()
+# calling feraiseexcept(FE_INVALID) for inf*0+c (floating-point exceptions are masked flags in Rust, never traps)
+FAIL_IGNORE = re.compile(r'NaN on (addition|subtraction|multiplication|division)|arithmetic overflow on floating-point|floating-point exception')
 
 def parse_terse(out, names):
     """Parse `--output-format=terse -j N` output.  Returns {harness_fullname: HarnessResult}."""
